@@ -138,6 +138,11 @@ func c09Step(g *Rng) Step {
 	case x < 9:
 		return Step{Op: "in", S: "msg", B: append([]byte{byte(g.Intn(12))}, g.Bytes(g.Intn(24))...)}
 	case x < 10:
+		if g.Bool(0.6) {
+			// a well-formed reply to one of the node's own open queries (one asked for
+			// acknowledgements, one did not), flags and sender arbitrary, possibly repeated
+			return Step{Op: "in", S: "resp", K: g.Intn(2), J: g.Intn(4), T: []string{"", "n1", "n0", "g0"}[g.Intn(4)], B: payload()}
+		}
 		r := &wQueryResponse{LTime: lt, ID: uint32(g.Intn(5)), From: []string{"", "n1"}[g.Intn(2)], Flags: uint32(g.Intn(3)), Payload: payload()}
 		return Step{Op: "in", S: "msg", B: wEnc(mtQueryResponse, r)}
 	case x < 11:
@@ -242,9 +247,18 @@ func execC09(r *Run) {
 	for k := 0; k < int(r.C.P["members"]); k++ {
 		nd.conf().Events.NotifyJoin(ghostNode(k))
 	}
-	// an open query of our own, so that responses can match something
-	nd.S.Query("open", []byte("x"), &serf.QueryParam{RequestAck: true, Timeout: time.Hour})
-	c.Wait()
+	// two open queries of our own (with and without acknowledgements requested), so that
+	// replies can match something
+	var open [2]*wQuery
+	for k, name := range []string{"open-ack", "open-noack"} {
+		nd.S.Query(name, []byte("x"), &serf.QueryParam{RequestAck: k == 0, Timeout: time.Hour})
+		c.Wait()
+		if wq, ok := findQuery(c, 0, name); ok {
+			open[k] = wq
+		}
+	}
+	c.Drain(0)
+	c.Bag = nil
 	for idx, s := range r.C.Steps {
 		r.curStep = idx
 		if s.Op != "in" {
@@ -262,6 +276,11 @@ func execC09(r *Run) {
 		switch s.S {
 		case "msg":
 			nd.Del.NotifyMsg(append([]byte(nil), s.B...))
+		case "resp":
+			if q := open[s.K%2]; q != nil {
+				nd.Del.NotifyMsg(wEnc(mtQueryResponse, &wQueryResponse{LTime: q.LTime, ID: q.ID, From: s.T, Flags: uint32(s.J), Payload: s.B}))
+				r.Probe("reply-to-open-query")
+			}
 		case "merge":
 			nd.Del.MergeRemoteState(append([]byte(nil), s.B...), s.F)
 		case "ping":
